@@ -29,16 +29,151 @@ theorem c16_code_shape :
     Gen.decodePipeVerifiesAgain = true ∧ Gen.decodeChecksAnything = true ∧
     Gen.signingKeyPerConnection = true := by decide
 
+/-- regenerated: the statement skeleton of the per-frame receive and send path (decryptPipe, decodePipe,
+decodeBytes, verifyFn, signFn, encodeProto, encryptPipe, reportMsg, handShake, sendID, receiveID —
+p2p/client.go, text-exact, each
+statement with the path of enclosing case / if / for headers) is the one `recvFrame` / `pack` were
+transcribed from: every frame taken from the channel reaches Open, decodeBytes with c.verifyFn
+(unconditionally: `if veifyfn != nil` only), UnmarshalAny and the second bls.Verify before it is handed
+to replyMsg / receivedMsg — replies included.  ANY edit of these functions shows here first (the
+pattern facts of `c16_code_shape` say a check exists somewhere, not that every frame reaches it). -/
+theorem c16_recv_path_skeleton : Gen.recvPathSkeleton =
+  [
+  "decryptPipe(ciphertext chan []byte) | out = make(chan []byte)",
+  "decryptPipe(ciphertext chan []byte) | go func | defer close(out)",
+  "decryptPipe(ciphertext chan []byte) | go func | for | case <-c.ctx.Done() | return",
+  "decryptPipe(ciphertext chan []byte) | go func | for | case text, ok := <-ciphertext | if ok | block, err = aes.NewCipher(c.dhKey)",
+  "decryptPipe(ciphertext chan []byte) | go func | for | case text, ok := <-ciphertext | if ok | if block, err = aes.NewCipher(c.dhKey); err != nil | c.reportError(errors.Errorf(\"client decryptPipe: %w\", err))",
+  "decryptPipe(ciphertext chan []byte) | go func | for | case text, ok := <-ciphertext | if ok | if block, err = aes.NewCipher(c.dhKey); err != nil | continue",
+  "decryptPipe(ciphertext chan []byte) | go func | for | case text, ok := <-ciphertext | if ok | aesgcm, err = cipher.NewGCM(block)",
+  "decryptPipe(ciphertext chan []byte) | go func | for | case text, ok := <-ciphertext | if ok | if aesgcm, err = cipher.NewGCM(block); err != nil | c.reportError(errors.Errorf(\"client decryptPipe: %w\", err))",
+  "decryptPipe(ciphertext chan []byte) | go func | for | case text, ok := <-ciphertext | if ok | if aesgcm, err = cipher.NewGCM(block); err != nil | continue",
+  "decryptPipe(ciphertext chan []byte) | go func | for | case text, ok := <-ciphertext | if ok | result, err = aesgcm.Open(nil, c.dhNonce, text, nil)",
+  "decryptPipe(ciphertext chan []byte) | go func | for | case text, ok := <-ciphertext | if ok | if result, err = aesgcm.Open(nil, c.dhNonce, text, nil); err != nil | c.reportError(errors.Errorf(\"client decryptPipe: %w\", err))",
+  "decryptPipe(ciphertext chan []byte) | go func | for | case text, ok := <-ciphertext | if ok | if result, err = aesgcm.Open(nil, c.dhNonce, text, nil); err != nil | continue",
+  "decryptPipe(ciphertext chan []byte) | go func | for | case text, ok := <-ciphertext | if ok | case out <- result | (empty)",
+  "decryptPipe(ciphertext chan []byte) | go func | for | case text, ok := <-ciphertext | if ok | case <-c.ctx.Done() | (empty)",
+  "decryptPipe(ciphertext chan []byte) | return out",
+  "decodePipe(bytesC chan []byte) | replyMsg = make(chan P2PMessage)",
+  "decodePipe(bytesC chan []byte) | receivedMsg = make(chan P2PMessage)",
+  "decodePipe(bytesC chan []byte) | go func | defer close(replyMsg)",
+  "decodePipe(bytesC chan []byte) | go func | defer close(receivedMsg)",
+  "decodePipe(bytesC chan []byte) | go func | for | case <-c.ctx.Done() | return",
+  "decodePipe(bytesC chan []byte) | go func | for | case bytes, ok := <-bytesC | if ok | if len(bytes) == 0 | continue",
+  "decodePipe(bytesC chan []byte) | go func | for | case bytes, ok := <-bytesC | if ok | pa, ptr, err := decodeBytes(bytes, c.verifyFn)",
+  "decodePipe(bytesC chan []byte) | go func | for | case bytes, ok := <-bytesC | if ok | if err != nil | c.reportError(errors.Errorf(\"client decodePipe: %w\", err))",
+  "decodePipe(bytesC chan []byte) | go func | for | case bytes, ok := <-bytesC | if ok | if err != nil | continue",
+  "decodePipe(bytesC chan []byte) | go func | for | case bytes, ok := <-bytesC | if ok | err := bls.Verify(c.suite, c.remotePubKey, pa.GetAnything().Value, pa.GetSignature())",
+  "decodePipe(bytesC chan []byte) | go func | for | case bytes, ok := <-bytesC | if ok | if err := bls.Verify(c.suite, c.remotePubKey, pa.GetAnything().Value, pa.GetSignature()); err != nil | c.reportError(errors.Errorf(\"client decodePipe: %w\", err))",
+  "decodePipe(bytesC chan []byte) | go func | for | case bytes, ok := <-bytesC | if ok | if err := bls.Verify(c.suite, c.remotePubKey, pa.GetAnything().Value, pa.GetSignature()); err != nil | continue",
+  "decodePipe(bytesC chan []byte) | go func | for | case bytes, ok := <-bytesC | if ok | msg = P2PMessage{Msg: ptr, Sender: pa.GetSender(), RequestNonce: pa.GetRequestNonce()}",
+  "decodePipe(bytesC chan []byte) | go func | for | case bytes, ok := <-bytesC | if ok | if pa.GetReplyFlag() | case <-c.ctx.Done() | (empty)",
+  "decodePipe(bytesC chan []byte) | go func | for | case bytes, ok := <-bytesC | if ok | if pa.GetReplyFlag() | case replyMsg <- msg | (empty)",
+  "decodePipe(bytesC chan []byte) | go func | for | case bytes, ok := <-bytesC | if ok | else(pa.GetReplyFlag()) | case <-c.ctx.Done() | (empty)",
+  "decodePipe(bytesC chan []byte) | go func | for | case bytes, ok := <-bytesC | if ok | else(pa.GetReplyFlag()) | case receivedMsg <- msg | (empty)",
+  "decodePipe(bytesC chan []byte) | return",
+  "decodeBytes(bytes []byte, veifyfn verifyFunc) | pa = &Package{}",
+  "decodeBytes(bytes []byte, veifyfn verifyFunc) | err = proto.Unmarshal(bytes, pa)",
+  "decodeBytes(bytes []byte, veifyfn verifyFunc) | if err = proto.Unmarshal(bytes, pa); err != nil | err = errors.Errorf(\"Unmarshal: %w\", err)",
+  "decodeBytes(bytes []byte, veifyfn verifyFunc) | if err = proto.Unmarshal(bytes, pa); err != nil | return",
+  "decodeBytes(bytes []byte, veifyfn verifyFunc) | if pa.GetAnything() == nil | err = errors.New(\"Unmarshal: package without a message\")",
+  "decodeBytes(bytes []byte, veifyfn verifyFunc) | if pa.GetAnything() == nil | return",
+  "decodeBytes(bytes []byte, veifyfn verifyFunc) | if veifyfn != nil | err = veifyfn(pa.GetAnything().Value, pa.GetSignature())",
+  "decodeBytes(bytes []byte, veifyfn verifyFunc) | if veifyfn != nil | if err = veifyfn(pa.GetAnything().Value, pa.GetSignature()); err != nil | err = errors.Errorf(\"veifyfn: %w\", err)",
+  "decodeBytes(bytes []byte, veifyfn verifyFunc) | if veifyfn != nil | if err = veifyfn(pa.GetAnything().Value, pa.GetSignature()); err != nil | return",
+  "decodeBytes(bytes []byte, veifyfn verifyFunc) | err = ptypes.UnmarshalAny(pa.GetAnything(), &ptr)",
+  "decodeBytes(bytes []byte, veifyfn verifyFunc) | if err = ptypes.UnmarshalAny(pa.GetAnything(), &ptr); err != nil | err = errors.Errorf(\"UnmarshalAny: %w\", err)",
+  "decodeBytes(bytes []byte, veifyfn verifyFunc) | return",
+  "verifyFn(msg, sig []byte) | err = bls.Verify(c.suite, c.remotePubKey, msg, sig)",
+  "verifyFn(msg, sig []byte) | if err = bls.Verify(c.suite, c.remotePubKey, msg, sig); err != nil | err = errors.Errorf(\"Verify: %w\", err)",
+  "verifyFn(msg, sig []byte) | return",
+  "signFn(msg []byte) | sig, err = bls.Sign(c.suite, c.localSecKey, msg)",
+  "signFn(msg []byte) | if sig, err = bls.Sign(c.suite, c.localSecKey, msg); err != nil | err = errors.Errorf(\"Sign: %w\", err)",
+  "signFn(msg []byte) | return",
+  "encodeProto(msg proto.Message, sender []byte, signFn signFunc, nonce uint64, replyFlag bool) | anything, err = ptypes.MarshalAny(msg)",
+  "encodeProto(msg proto.Message, sender []byte, signFn signFunc, nonce uint64, replyFlag bool) | if anything, err = ptypes.MarshalAny(msg); err != nil | err = errors.Errorf(\"MarshalAny: %w\", err)",
+  "encodeProto(msg proto.Message, sender []byte, signFn signFunc, nonce uint64, replyFlag bool) | if anything, err = ptypes.MarshalAny(msg); err != nil | return",
+  "encodeProto(msg proto.Message, sender []byte, signFn signFunc, nonce uint64, replyFlag bool) | if signFn != nil | sign, err = signFn(anything.Value)",
+  "encodeProto(msg proto.Message, sender []byte, signFn signFunc, nonce uint64, replyFlag bool) | if signFn != nil | if sign, err = signFn(anything.Value); err != nil | err = errors.Errorf(\"signFn: %w\", err)",
+  "encodeProto(msg proto.Message, sender []byte, signFn signFunc, nonce uint64, replyFlag bool) | if signFn != nil | if sign, err = signFn(anything.Value); err != nil | return",
+  "encodeProto(msg proto.Message, sender []byte, signFn signFunc, nonce uint64, replyFlag bool) | p := &Package{Anything: anything, Sender: sender, Signature: sign, RequestNonce: nonce, ReplyFlag: replyFlag}",
+  "encodeProto(msg proto.Message, sender []byte, signFn signFunc, nonce uint64, replyFlag bool) | bytes, err = proto.Marshal(p)",
+  "encodeProto(msg proto.Message, sender []byte, signFn signFunc, nonce uint64, replyFlag bool) | if bytes, err = proto.Marshal(p); err != nil | err = errors.Errorf(\"Marshal: %w\", err)",
+  "encodeProto(msg proto.Message, sender []byte, signFn signFunc, nonce uint64, replyFlag bool) | return",
+  "encryptPipe(plaintext chan []byte) | out = make(chan []byte)",
+  "encryptPipe(plaintext chan []byte) | go func | defer close(out)",
+  "encryptPipe(plaintext chan []byte) | go func | for | case <-c.ctx.Done() | return",
+  "encryptPipe(plaintext chan []byte) | go func | for | case text, ok := <-plaintext | if ok | block, err = aes.NewCipher(c.dhKey)",
+  "encryptPipe(plaintext chan []byte) | go func | for | case text, ok := <-plaintext | if ok | if block, err = aes.NewCipher(c.dhKey); err != nil | c.reportError(errors.Errorf(\"client encryptPipe: %w\", err))",
+  "encryptPipe(plaintext chan []byte) | go func | for | case text, ok := <-plaintext | if ok | if block, err = aes.NewCipher(c.dhKey); err != nil | continue",
+  "encryptPipe(plaintext chan []byte) | go func | for | case text, ok := <-plaintext | if ok | aesgcm, err = cipher.NewGCM(block)",
+  "encryptPipe(plaintext chan []byte) | go func | for | case text, ok := <-plaintext | if ok | if aesgcm, err = cipher.NewGCM(block); err != nil | c.reportError(errors.Errorf(\"client encryptPipe: %w\", err))",
+  "encryptPipe(plaintext chan []byte) | go func | for | case text, ok := <-plaintext | if ok | if aesgcm, err = cipher.NewGCM(block); err != nil | continue",
+  "encryptPipe(plaintext chan []byte) | go func | for | case text, ok := <-plaintext | if ok | result = aesgcm.Seal(nil, c.dhNonce, text, nil)",
+  "encryptPipe(plaintext chan []byte) | go func | for | case <-c.ctx.Done() | (empty)",
+  "encryptPipe(plaintext chan []byte) | go func | for | case out <- result | (empty)",
+  "encryptPipe(plaintext chan []byte) | return out",
+  "reportMsg(msg P2PMessage) | case <-c.ctx.Done() | (empty)",
+  "reportMsg(msg P2PMessage) | case c.peerFeed <- msg | (empty)",
+  "handShake(ctx context.Context) | return utils.MergeErrors(ctx, c.sendID(ctx), c.receiveID(ctx))",
+  "sendID(ctx context.Context) | errc = make(chan error)",
+  "sendID(ctx context.Context) | go func | defer close(errc)",
+  "sendID(ctx context.Context) | go func | pubKeyBytes, err = c.localPubKey.MarshalBinary()",
+  "sendID(ctx context.Context) | go func | if pubKeyBytes, err = c.localPubKey.MarshalBinary(); err != nil | utils.ReportError(ctx, errc, errors.Errorf(\"MarshalBinary: %w\", err))",
+  "sendID(ctx context.Context) | go func | if pubKeyBytes, err = c.localPubKey.MarshalBinary(); err != nil | return",
+  "sendID(ctx context.Context) | go func | pID := &ID{PublicKey: pubKeyBytes, Id: c.localID}",
+  "sendID(ctx context.Context) | go func | bytes, err = encodeProto(pID, c.localID, nil, 0, false)",
+  "sendID(ctx context.Context) | go func | if bytes, err = encodeProto(pID, c.localID, nil, 0, false); err != nil | utils.ReportError(ctx, errc, errors.Errorf(\"encodeProto: %w\", err))",
+  "sendID(ctx context.Context) | go func | err = writeTo(bytes, c.conn)",
+  "sendID(ctx context.Context) | go func | if err = writeTo(bytes, c.conn); err != nil | utils.ReportError(ctx, errc, errors.Errorf(\"writeTo: %w\", err))",
+  "sendID(ctx context.Context) | go func | return",
+  "sendID(ctx context.Context) | return",
+  "receiveID(ctx context.Context) | errc = make(chan error)",
+  "receiveID(ctx context.Context) | go func | defer close(errc)",
+  "receiveID(ctx context.Context) | go func | buffer, err := readFrom(c.conn)",
+  "receiveID(ctx context.Context) | go func | if err != nil | utils.ReportError(ctx, errc, errors.Errorf(\"readFrom %s : %w\", c.conn.RemoteAddr().String(), err))",
+  "receiveID(ctx context.Context) | go func | if err != nil | return",
+  "receiveID(ctx context.Context) | go func | _, ptr, err := decodeBytes(buffer, nil)",
+  "receiveID(ctx context.Context) | go func | if err != nil | utils.ReportError(ctx, errc, errors.Errorf(\"decodeBytes: %w\", err))",
+  "receiveID(ctx context.Context) | go func | if err != nil | return",
+  "receiveID(ctx context.Context) | go func | id, ok := ptr.Message.(*ID)",
+  "receiveID(ctx context.Context) | go func | if !ok | err = errors.Errorf(\"ID casting: %w\", ErrCasting)",
+  "receiveID(ctx context.Context) | go func | if !ok | utils.ReportError(ctx, errc, err)",
+  "receiveID(ctx context.Context) | go func | if !ok | return",
+  "receiveID(ctx context.Context) | go func | c.remoteID = id.GetId()",
+  "receiveID(ctx context.Context) | go func | if string(c.remoteID) == string(c.localID) | err = errors.Errorf(\"remoteID %b != localID %b: %w\", c.remoteID, c.localID, ErrDuplicateID)",
+  "receiveID(ctx context.Context) | go func | if string(c.remoteID) == string(c.localID) | utils.ReportError(ctx, errc, errors.Errorf(\"client : %w\", err))",
+  "receiveID(ctx context.Context) | go func | if c.remoteID == nil | err = errors.Errorf(\"remoteID is nil: %w\", ErrNoRemoteID)",
+  "receiveID(ctx context.Context) | go func | pub := c.suite.G2().Point()",
+  "receiveID(ctx context.Context) | go func | err = pub.UnmarshalBinary(id.GetPublicKey())",
+  "receiveID(ctx context.Context) | go func | if err = pub.UnmarshalBinary(id.GetPublicKey()); err != nil | utils.ReportError(ctx, errc, errors.Errorf(\"UnmarshalBinary: %w\", err))",
+  "receiveID(ctx context.Context) | go func | if err = pub.UnmarshalBinary(id.GetPublicKey()); err != nil | return",
+  "receiveID(ctx context.Context) | go func | c.remotePubKey = pub",
+  "receiveID(ctx context.Context) | go func | dhKey := c.suite.Point().Mul(c.localSecKey, c.remotePubKey)",
+  "receiveID(ctx context.Context) | go func | dhBytes, err = dhKey.MarshalBinary()",
+  "receiveID(ctx context.Context) | go func | if dhBytes, err = dhKey.MarshalBinary(); err != nil | utils.ReportError(ctx, errc, errors.Errorf(\"MarshalBinary: %w\", err))",
+  "receiveID(ctx context.Context) | go func | if dhBytes, err = dhKey.MarshalBinary(); err != nil | return",
+  "receiveID(ctx context.Context) | go func | if len(dhBytes) < 44 | utils.ReportError(ctx, errc, errors.New(\"remote public key is the point at infinity\"))",
+  "receiveID(ctx context.Context) | go func | if len(dhBytes) < 44 | return",
+  "receiveID(ctx context.Context) | go func | c.dhKey = dhBytes[0:32]",
+  "receiveID(ctx context.Context) | go func | c.dhNonce = dhBytes[32:44]",
+  "receiveID(ctx context.Context) | go func | return",
+  "receiveID(ctx context.Context) | return"] := by rfl
+
 /-- regenerated fact: `client.run` keeps `errc` drained (the repair of the stall after a second
 rejected frame); theorem 4 is stated for the code's own value of the switch -/
 theorem c16_errors_drained : Gen.runKeepsDrainingErrors = true := by decide
 
-/-- **1. delivered ⇒ sent BY THE REMOTE ENDPOINT, byte for byte.**  `sent` is what the remote endpoint
+/-- **1. delivered ⇒ sent BY THE REMOTE ENDPOINT, byte for byte — PARTIAL: for the man in the middle
+who cannot make a valid GCM tag (`Derivable`, ideal AEAD).  The code's AEAD is NOT ideal (one nonce for
+every frame): for the adversary the code really faces (`DerivableGCM`) the statement is `C16_full`
+below, which is REFUTED (`gcm_nonce_reuse_forgery`, known finding, replayed on the real nodes by the
+`gcm` cases); what survives is `delivered_payload_was_signed_partial`.**  `sent` is what the remote endpoint
 sent on this connection, `own` what the receiver itself sent on it (packed with its own key, which
 differs from the remote one).  Whatever sequence `wire` the man in the middle puts on the connection —
 including the receiver's own frames bounced back — every message the receiver delivers is the
 delivery of a frame of `sent` (same type, same value bytes, same sender, nonce and flag). -/
-theorem delivered_was_sent (c : Conn) (hne : c.self ≠ c.pk) (sent own wire : List Frame)
+theorem delivered_was_sent_partial (c : Conn) (hne : c.self ≠ c.pk) (sent own wire : List Frame)
     (hown : OwnPacked c own) (hmitm : ∀ f ∈ wire, Derivable c.k sent own f) :
     ∀ d ∈ (recvAll c wire).out, ∃ f ∈ sent, recvFrame c f = .deliver d := by
   intro d hd
@@ -51,12 +186,12 @@ theorem delivered_was_sent (c : Conn) (hne : c.self ≠ c.pk) (sent own wire : L
 /-- … so when the remote endpoint is honest (it packed the messages `ms` with the key it presented in
 the handshake) every delivery IS one of the messages the REMOTE endpoint packed — never one the
 receiver packed itself: same type and the very same bytes. -/
-theorem delivered_was_packed (c : Conn) (hne : c.self ≠ c.pk) (sender : Bytes)
+theorem delivered_was_packed_partial (c : Conn) (hne : c.self ≠ c.pk) (sender : Bytes)
     (ms : List (Msg × Nat × Bool)) (own wire : List Frame) (hown : OwnPacked c own)
     (hmitm : ∀ f ∈ wire, Derivable c.k (ms.map fun m => pack c.pk c.k sender m.1 m.2.1 m.2.2) own f) :
     ∀ d ∈ (recvAll c wire).out, ∃ m ∈ ms, d = delivered sender m.1 m.2.1 m.2.2 := by
   intro d hd
-  obtain ⟨f, hf, hdel⟩ := delivered_was_sent c hne _ own wire hown hmitm d hd
+  obtain ⟨f, hf, hdel⟩ := delivered_was_sent_partial c hne _ own wire hown hmitm d hd
   obtain ⟨m, hm, rfl⟩ := List.mem_map.mp hf
   refine ⟨m, hm, ?_⟩
   rw [recvFrame_deliver] at hdel
@@ -66,6 +201,93 @@ theorem delivered_was_packed (c : Conn) (hne : c.self ≠ c.pk) (sender : Bytes)
   simp only [Option.some.injEq] at ha
   subst ha
   rfl
+
+/-- **The full statement of clause 1 for the man in the middle THE CODE faces** (`DerivableGCM`: after two
+frames of the connection he can put a valid seal on any plaintext that contains no BLS signature he has
+not seen — AES-GCM under the connection's single nonce): every delivery is one of the messages the
+honest remote endpoint packed, same type, bytes, sender, nonce and flag. -/
+def C16_full : Prop :=
+  ∀ (c : Conn), c.self ≠ c.pk → ∀ (sender : Bytes) (ms : List (Msg × Nat × Bool)) (own wire : List Frame),
+    OwnPacked c own →
+    (∀ f ∈ wire, DerivableGCM c.k (ms.map fun m => pack c.pk c.k sender m.1 m.2.1 m.2.2) own f) →
+    ∀ d ∈ (recvAll c wire).out, ∃ m ∈ ms, d = delivered sender m.1 m.2.1 m.2.2
+
+/-- **KNOWN FINDING gcm-nonce-reuse-forgery — negation witness.**  The remote endpoint packs Ping{7} twice
+(nonces 0 and 1); the man in the middle, holding no key, seals the same payload and signature as a
+message of type 1 (Pong) with request nonce 99: the receiver delivers it — a message nobody sent.
+(The BLS signature covers the value bytes only; type URL, nonce, reply flag and sender are protected by
+the AEAD alone.)  Replayed on two real nodes at every run: `gcm P`, `gcm N,C`, `gcm P,B,N`. -/
+theorem gcm_nonce_reuse_forgery : ¬ C16_full := by
+  intro h
+  have hd := h (theConn true) (by decide) [65] [(⟨0, [7]⟩, 0, false), (⟨0, [7]⟩, 1, false)] []
+    [.sealed 1 (.pkg { any := some { typ := 1, value := [7] }, sig := .good 7 [7], sender := [65], nonce := 99 })]
+    (by intro f hf; simp at hf)
+    (by
+      intro f hf
+      simp only [List.mem_singleton] at hf
+      subst hf
+      refine DerivableGCM.forged ⟨pack 7 1 [65] ⟨0, [7]⟩ 0 false, pack 7 1 [65] ⟨0, [7]⟩ 1 false, by simp [theConn], by simp [theConn], by decide, by decide, by decide⟩ ?_
+      exact ⟨1, { any := some { typ := 0, value := [7], wf := true }, sig := .good 7 [7], sender := [65], nonce := 0, reply := false }, by simp [theConn, pack], rfl⟩)
+    { typ := 1, value := [7], sender := [65], nonce := 99, reply := false } (by decide)
+  obtain ⟨m, hm, he⟩ := hd
+  simp only [List.mem_cons, List.not_mem_nil, or_false] at hm
+  rcases hm with rfl | rfl <;> simp [delivered] at he
+
+example : recvFrame (theConn true)
+    (.sealed 1 (.pkg { any := some { typ := 1, value := [7] }, sig := .good 7 [7], sender := [65], nonce := 99 })) =
+    .deliver { typ := 1, value := [7], sender := [65], nonce := 99, reply := false } := by decide
+
+/-- **1′. what survives under the code's AEAD — PARTIAL: the PAYLOAD is authentic.**  For the man in the
+middle the code faces (`DerivableGCM`), with an honest remote endpoint: the value bytes of every
+delivered message are, byte for byte, the value bytes of a message the remote endpoint packed and
+signed on this connection (the BLS check under the handshake key is what gives this; a reflected own
+frame's signature is the receiver's own).  NOT guaranteed, and violated by the witness above: that
+the type, the request nonce, the reply flag and the sender are those of that message, and that it
+is delivered once. -/
+theorem delivered_payload_was_signed_partial (c : Conn) (hne : c.self ≠ c.pk) (sender : Bytes)
+    (ms : List (Msg × Nat × Bool)) (own wire : List Frame) (hown : OwnPacked c own)
+    (hmitm : ∀ f ∈ wire, DerivableGCM c.k (ms.map fun m => pack c.pk c.k sender m.1 m.2.1 m.2.2) own f) :
+    ∀ d ∈ (recvAll c wire).out, ∃ m ∈ ms, d.value = m.1.value := by
+  intro d hd
+  rcases foldl_out c wire {} d hd with h | ⟨f, hf, hdel⟩
+  · simp at h
+  · cases hmitm f hf with
+    | ideal hi =>
+      by_cases hs : f ∈ ms.map fun m => pack c.pk c.k sender m.1 m.2.1 m.2.2
+      · obtain ⟨m, hm, rfl⟩ := List.mem_map.mp hs
+        refine ⟨m, hm, ?_⟩
+        rw [recvFrame_deliver] at hdel
+        obtain ⟨p, a, hp, ha, _, _, _, rfl⟩ := hdel
+        simp only [pack, Frame.sealed.injEq, Plain.pkg.injEq, true_and] at hp
+        subst hp
+        simp only [Option.some.injEq] at ha
+        subst ha
+        rfl
+      · exact absurd hdel (forged_not_delivered c hne _ own hown f hi hs d)
+    | forged _ hk =>
+      rw [recvFrame_deliver] at hdel
+      obtain ⟨p, a, hp, ha, hsig, _, _, rfl⟩ := hdel
+      simp only [Frame.sealed.injEq, true_and] at hp
+      subst hp
+      simp only [KnownPlain, hsig] at hk
+      obtain ⟨k', q, hq, hqs⟩ := hk
+      rcases List.mem_append.mp hq with h1 | h1
+      · obtain ⟨m, hm, he⟩ := List.mem_map.mp h1
+        refine ⟨m, hm, ?_⟩
+        simp only [pack, Frame.sealed.injEq, Plain.pkg.injEq] at he
+        obtain ⟨_, rfl⟩ := he
+        simp only [Sig.good.injEq] at hqs
+        exact hqs.2.symm
+      · obtain ⟨sd, m, n, r, he⟩ := hown _ h1
+        simp only [pack, Frame.sealed.injEq, Plain.pkg.injEq] at he
+        obtain ⟨_, rfl⟩ := he
+        simp only [Sig.good.injEq] at hqs
+        exact absurd hqs.1 hne
+
+example : DerivableGCM 1 [pack 7 1 [65] ⟨0, [7]⟩ 0 false, pack 7 1 [65] ⟨0, [7]⟩ 1 false] []
+    (.sealed 1 (.pkg { any := some { typ := 1, value := [7] }, sig := .good 7 [7], sender := [65], nonce := 99 })) :=
+  .forged ⟨pack 7 1 [65] ⟨0, [7]⟩ 0 false, pack 7 1 [65] ⟨0, [7]⟩ 1 false, by simp, by simp, by decide, by decide, by decide⟩
+    ⟨1, { any := some { typ := 0, value := [7], wf := true }, sig := .good 7 [7], sender := [65], nonce := 0, reply := false }, by simp [pack], rfl⟩
 
 /-- **1b. reflection**: a frame the receiver sent itself, bounced back by the man in the middle, opens
 under the session key (both directions share key and nonce) and is rejected ONLY by the signature
@@ -83,10 +305,10 @@ theorem reflection_needs_the_remote_key (c : Conn) (sender : Bytes) (m : Msg) (n
       .deliver (delivered sender m nonce false) :=
   recvFrame_pack { c with pk := c.self } sender m nonce false hk
 
-/-- **2a. tampered frames are errors, not deliveries**: a byte string that is not a Seal output under
+/-- **2a. tampered frames are errors, not deliveries — PARTIAL (ideal AEAD, see 1)**: a byte string that is not a Seal output under
 the session key (flipped, truncated, duplicated-and-altered, injected), a frame sealed under any
 other key, damaged framing, a reflected frame — each is an `err` outcome: no delivery, no panic. -/
-theorem tampered_not_delivered (c : Conn) (hne : c.self ≠ c.pk) (sent own : List Frame)
+theorem tampered_not_delivered_partial (c : Conn) (hne : c.self ≠ c.pk) (sent own : List Frame)
     (hown : OwnPacked c own) (f : Frame)
     (hd : Derivable c.k sent own f) (hnew : f ∉ sent) : ∃ e, recvFrame c f = .err e := by
   cases hd with
